@@ -75,7 +75,7 @@ func ruleC05Layout(e *Env) (widths []int, hyph []int) {
 	}{{"plain", 0, ""}, {"urn", urnFlag, "urn:uuid:"}} {
 		var captured []pred.Val
 		sid := &pred.StructV{T: idT.Underlying().(*types.Struct), Named: idT, Fields: []pred.Val{pred.SymBits("H", 64, false), pred.SymBits("L", 64, false)}}
-		ev := &pred.Evaluator{Prog: e.P.SSA, Oracle: noOracle{}, Summaries: map[string]pred.Summary{
+		ev := &pred.Evaluator{Prog: e.P.SSA, GlobalInit: e.globalTables(), Oracle: noOracle{}, Summaries: map[string]pred.Summary{
 			bp.String(): func(ev *pred.Evaluator, args []pred.Val) (pred.Val, error) {
 				captured = args
 				return pred.Sym{Name: "out"}, nil
@@ -198,19 +198,28 @@ func ruleC05Layout(e *Env) (widths []int, hyph []int) {
 	return widths, hyph
 }
 
+// ruleBprintf: internal.Bprintf(buf, format, a...) = buf followed by fmt's rendering of (format, a...), whatever
+// route the bytes take (Fprintf into a bytes.Buffer over buf, Appendf, WriteString(Sprintf(…))): the function is
+// evaluated with bytes.Buffer modelled as an append-only byte sequence and fmt as one uninterpreted rendering.
 func ruleBprintf(e *Env, rule string, bp *ssa.Function) {
 	site := flow.FnName(bp)
-	calls := e.C.Calls(bp, func(f *ssa.Function) bool { return strings.HasPrefix(f.String(), "fmt.") })
-	if len(calls) != 1 || !(calls[0].Call.StaticCallee().String() == "fmt.Fprintf" || calls[0].Call.StaticCallee().String() == "fmt.Appendf") {
-		e.S.Unk(rule, site, "delegation", "Bprintf does not make exactly one call to fmt.Fprintf/fmt.Appendf", e.Pos(bp))
+	if len(bp.Params) != 3 {
+		e.S.Unk(rule, site, "delegation", "unexpected signature", e.Pos(bp))
 		return
 	}
-	c := calls[0]
-	if c.Call.Args[1] != ssa.Value(bp.Params[1]) || c.Call.Args[2] != ssa.Value(bp.Params[2]) {
-		e.S.Bad(rule, site, "delegation", "format or arguments are not passed to fmt unchanged", e.posOf(c), "")
-		return
+	ev := &pred.Evaluator{Prog: e.P.SSA, Oracle: noOracle{}, Summaries: byteSinkSummaries()}
+	out, err := ev.Eval(bp, []pred.Val{pred.Sym{Name: "buf"}, pred.Sym{Name: "format"}, pred.Sym{Name: "a"}})
+	const want = "builtin.append(buf,fmt.Sprintf(format,a))"
+	switch {
+	case err != nil:
+		e.S.Unk(rule, site, "delegation", "not evaluable: "+err.Error(), e.Pos(bp))
+	case out.Panic:
+		e.S.Bad(rule, site, "delegation", "Bprintf panics", e.Pos(bp), "")
+	case out.Ret.String() != want:
+		e.S.Bad(rule, site, "delegation", "returns "+out.Ret.String()+", not buf followed by fmt's rendering of (format, a...) unchanged", e.Pos(bp), "")
+	default:
+		e.S.Ok(rule, site, "delegation", "= append(buf, fmt.Sprintf(format, a...)...): format and arguments reach fmt unchanged (append-only behaviour: C16)", e.Pos(bp))
 	}
-	e.S.Ok(rule, site, "delegation", "format and arguments passed to "+c.Call.StaticCallee().String()+" unchanged (append-only behaviour: C16)", e.Pos(bp))
 }
 
 // ---- C05.pos
@@ -270,7 +279,7 @@ func ruleC05Digit(e *Env) {
 			lo, hi := bs[i], bs[i+1]-1
 			construct := fmt.Sprintf("byte %d..%d upper=%v", lo, hi, upper)
 			o := intervalOracle{sym: "digit", lo: lo, hi: hi}
-			ev := &pred.Evaluator{Prog: e.P.SSA, Oracle: o}
+			ev := &pred.Evaluator{Prog: e.P.SSA, GlobalInit: e.globalTables(), Oracle: o}
 			up := upper
 			out, err := ev.Eval(fn, e.Permuted("uu", "parseDigit", fn, func() []pred.Val {
 				return []pred.Val{pred.Sym{Name: "digit"}, pred.Const{V: constant.MakeBool(up)}}
@@ -599,7 +608,7 @@ func ruleC05Ver(e *Env) {
 		return &pred.StructV{T: idT.Underlying().(*types.Struct), Named: idT, Fields: []pred.Val{h, l}}
 	}
 	// Version: bits 15..12 of Higher, zero-extended
-	ev := &pred.Evaluator{Prog: e.P.SSA, Oracle: noOracle{}}
+	ev := &pred.Evaluator{Prog: e.P.SSA, GlobalInit: e.globalTables(), Oracle: noOracle{}}
 	out, err := ev.Eval(ver, []pred.Val{mk(pred.SymBits("H", 64, false), pred.SymBits("L", 64, false))})
 	if err != nil {
 		e.S.Unk(rule, flow.FnName(ver), "bits", err.Error(), e.Pos(ver))
@@ -642,7 +651,7 @@ func ruleC05Ver(e *Env) {
 			want = 2
 		}
 		construct := fmt.Sprintf("Lower[63:61]=%03b", top)
-		ev := &pred.Evaluator{Prog: e.P.SSA, Oracle: noOracle{}}
+		ev := &pred.Evaluator{Prog: e.P.SSA, GlobalInit: e.globalTables(), Oracle: noOracle{}}
 		out, err := ev.Eval(vari, []pred.Val{mk(pred.SymBits("H", 64, false), l)})
 		if err != nil {
 			e.S.Unk(rule, flow.FnName(vari), construct, "depends on more than the top three bits of Lower: "+err.Error(), e.Pos(vari))
